@@ -1,10 +1,60 @@
 import Driver.Common
+import RxModel.PipeHeap
+import RxModel.PipeProducers
 open Lean Drv
 
 namespace DrvPipe
+open Pipe
 
-def handle (op : String) (_j : Json) : Except String Json := do
+def kindOf (s : String) : Except String Kind :=
+  match s with
+  | "leaf" => pure .leaf | "comp" => pure .comp | "serial" => pure .serial | "single" => pure .single
+  | "multi" => pure .multi | "refcount" => pure .refcount | "inner" => pure .inner
+  | _ => throw s!"bad kind {s}"
+
+def natOf (j : Json) : Except String Nat := j.getNat?
+
+/-- replay a recorded trace; at every `chk` marker emit the model's (done, released) flags. -/
+def heapTrace (ops : List Json) : Except String Json := do
+  let mut h : Heap := []
+  let mut out : Array Json := #[]
+  let mut rejected : Nat := 0
+  for o in ops do
+    match o with
+    | .arr a =>
+      match a.toList with
+      | [.str "new", .str k, .arr items] =>
+        h := (Pipe.apply h (.new (← kindOf k) (← items.toList.mapM natOf))).1
+      | [.str "add", c, x] => h := (Pipe.apply h (.add (← natOf c) (← natOf x))).1
+      | [.str "remove", c, x] => h := (Pipe.apply h (.remove (← natOf c) (← natOf x))).1
+      | [.str "clear", c] => h := (Pipe.apply h (.clear (← natOf c))).1
+      | [.str "assign", s, x] =>
+        let (h', r) := Pipe.apply h (.assign (← natOf s) (← natOf x))
+        h := h'
+        if r == .rejected then rejected := rejected + 1
+      | [.str "dispose", x] => h := (Pipe.apply h (.dispose (← natOf x))).1
+      | [.str "getInner", r] => h := (Pipe.apply h (.getInner (← natOf r))).1
+      | [.str "rejected"] => pure ()
+      | .str "chk" :: _ =>
+        out := out.push (Json.arr #[Json.arr (h.map (fun n => Json.bool n.done)).toArray,
+                                     Json.arr (h.map (fun n => Json.bool n.released)).toArray])
+      | _ => throw s!"bad op {o.compress}"
+    | _ => throw "bad op"
+  pure (Json.mkObj [("chk", Json.arr out), ("rejected", .num (JsonNumber.fromNat rejected))])
+
+def handle (op : String) (j : Json) : Except String Json := do
   match op with
+  | "heap_trace" => heapTrace (← getArr j "ops")
+  | "from_iter" =>
+    let xs ← getVals j "xs"
+    let k := (j.getObjValAs? Nat "k").toOption
+    let dd : Nat → Bool := fun i => k == some i
+    let (out, pulls) := fromIter dd 0 false xs
+    let enc : Notif Val → Json
+      | .next v => Json.arr #[.str "N", valToJson v]
+      | .error e => Json.arr #[.str "E", .str e]
+      | .completed => Json.arr #[.str "C"]
+    pure (Json.mkObj [("out", Json.arr (out.map enc).toArray), ("pulls", .num (JsonNumber.fromNat pulls))])
   | _ => throw s!"unknown op {op}"
 
 end DrvPipe
